@@ -152,7 +152,8 @@ def family_source(case, n):
     if case["family"] == "generated_expr":
         e = case["innermost"]
         for i in range(n):
-            e = case["recipe"][i % len(case["recipe"])] % e
+            # a nested ac-implied-do must not re-use the do-variable of the enclosing one (C497): one name per level
+            e = case["recipe"][i % len(case["recipe"])].replace(", k = ", ", k%d = " % i) % e
         return _prog([case["stmt"] % e])
     if case["family"] == "generated_io":
         e = case["innermost"]
